@@ -1,7 +1,7 @@
 /-
   C17 — No password failing the configured policy is ever stored.
 -/
-import Whawty.Model.Policy
+import Whawty.Lemmas.Policy
 namespace Whawty.Policy.C17
 open Whawty Whawty.Policy
 
@@ -96,7 +96,27 @@ theorem bad_policy_stops_agent (ty cond : Bytes) (h : newPolicy ty cond = some .
       simp at hc
     · simp at h
 
+/-- `strings.Fields` as modelled: the fuel of the scan is irrelevant once it covers the input … -/
+theorem fields_fuel_irrelevant (s : Bytes) (n : Nat) (h : s.length ≤ n) : fieldsAux n s [] = fields s :=
+  fieldsAux_fuel n s.length s [] h (Nat.le_refl _)
+
+/-- … and its fields are words: non-empty, without any ASCII white space inside. -/
+theorem fields_are_words (s : Bytes) : ∀ f ∈ fields s, f ≠ [] ∧ ∀ b ∈ f, isSpace b = false :=
+  fun f hf => ⟨fieldsAux_nonempty _ s [] f hf, fieldsAux_no_space _ s [] (by simp) f hf⟩
+
+/-- A condition that parses has exactly three words; none of them contains white space, so the
+    accepted spellings are exactly `score|entropy|time`, `>=`, a decimal number, separated (and
+    surrounded) by any white space — Unicode white space included, as `strings.Fields` has it. -/
+theorem parsed_condition_has_three_words (s : Bytes) (c : Cond) (h : parseCondition s = some c) :
+    (fields s).length = 3 := by
+  obtain ⟨k, t, hf, _⟩ := (condition_parser_exact s c).mp h
+  rw [hf]; rfl
+
 /- Non-vacuity -/
+-- "score\u00a0>=\u20003" (no-break space, en quad) parses; U+200B (zero width space) is not white space
+example : parseCondition [115, 99, 111, 114, 101, 0xC2, 0xA0, 62, 61, 0xE2, 0x80, 0x80, 51] = some ⟨.score, 3⟩ := by decide
+example : parseCondition [115, 99, 111, 114, 101, 0xE2, 0x80, 0x8B, 62, 61, 32, 51] = none := by decide
+example : fields [0xE3, 0x80, 0x80, 97, 0xE2, 0x80, 0xA8, 98, 0xC2] = [[97], [98, 0xC2]] := by decide
 example : parseCondition [115, 99, 111, 114, 101, 32, 62, 61, 32, 51] = some ⟨.score, 3⟩ := by decide   -- "score >= 3"
 example : parseCondition [115, 99, 111, 114, 101, 32, 62, 61, 32, 53] = none := by decide                  -- "score >= 5"
 example : parseCondition [115, 99, 111, 114, 101, 32, 62, 32, 51] = none := by decide                      -- "score > 3"
